@@ -14,6 +14,12 @@ fn main() {
     if args.is_empty() {
         usage();
     }
+    // debugging aid: vcheck checker <problem.json> <matrix.json> <solution.json> runs the repository's solution checker
+    if args[0] == "checker" && args.len() == 4 {
+        let read = |p: &String| serde_json::from_str::<serde_json::Value>(&std::fs::read_to_string(p).expect("cannot read")).expect("not json");
+        eprintln!("{:?}", checks::c12::run_checker(&read(&args[1]), &[read(&args[2])], &read(&args[3])));
+        return;
+    }
     let is_worker = args[0] == "worker";
     let rest = if is_worker { &args[1..] } else { &args[..] };
     if rest.is_empty() {
